@@ -1,0 +1,63 @@
+//go:build verif
+
+package announce
+
+// Contracts for the deductive checks in /verif (comment-only; no code).
+
+// ---------------------------------------------------------------------------
+// C16: announce receiver shutdown never hangs
+
+//@ protects Receiver.announceMutex: closed, announceCache
+
+// Data-structure invariant of a Receiver built by NewReceiver: the done
+// channel exists and is closed only once the receiver is marked closed.
+//@ spec func recvOK(r val) bool = r != nil && r.done != nil && r.announceCache != nil && (closed(r.done) ==> r.closed)
+
+// Close: idempotent; every return leaves the mutex as it found it (implicit
+// balance obligation); close(done) at most once.
+//@ func (*Receiver).Close
+//@   property C16
+//@   requires recvOK(r) && !held(r.announceMutex)
+//@   requires r.cancelWatch != nil ==> r.watchDone != nil
+//@   requires r.cancelPubsub != nil ==> r.topic != nil
+//@   mayblock recv:watchDone
+//@   shutdown done
+//@   ensures old(r.closed) ==> result == nil && count("close:done") == 0
+//@   ensures !old(r.closed) ==> count("close:done") == 1
+
+//@ func (*Receiver).Next
+//@   property C16
+//@   requires recvOK(r) && ctx != nil
+//@   shutdown done
+
+//@ func (*Receiver).UncacheCid
+//@   property C16
+//@   requires recvOK(r) && !held(r.announceMutex)
+
+//@ func (*Receiver).Direct
+//@   property C16
+//@   requires recvOK(r) && !held(r.announceMutex) && ctx != nil
+
+//@ func (*Receiver).handleAnnounce
+//@   property C16 C09
+//@   requires recvOK(r) && !held(r.announceMutex) && ctx != nil
+//@   shutdown done
+//@   ensures count("send:outChan") <= 1
+
+// After close the duplicate filter is not touched; a rejected source never
+// reaches the mutex or the filter.
+//@ func (*Receiver).announceCheck
+//@   property C16 C09
+//@   requires recvOK(r) && !held(r.announceMutex)
+//@   ghost allowed := true
+//@   at call allowPeer#1: after ghost allowed := result
+//@   ensures !allowed ==> result != nil && count("call:update") == 0 && count("lock:announceMutex") == 0
+//@   ensures allowed && old(r.closed) ==> result == ErrClosed && count("call:update") == 0
+//@   ensures result == nil ==> count("call:update") == 1
+
+//@ func (*stringLRU).remove
+//@   nobody
+//@   requires l != nil
+//@ func (*stringLRU).update
+//@   nobody
+//@   requires l != nil
